@@ -4,6 +4,8 @@ import (
 	"encoding/json"
 	"flag"
 	"fmt"
+	"go/scanner"
+	"go/token"
 	"os"
 	"path/filepath"
 	"sort"
@@ -202,6 +204,12 @@ func main() {
 			for _, cl := range cls {
 				walk(cl.e)
 			}
+			// identifiers in the statement texts of `at` clauses
+			for _, at := range fc.ats {
+				for _, w := range identsOf(at.stmt) {
+					names[w] = true
+				}
+			}
 			locals := namedLocals(fn)
 			count := map[string]int{}
 			var lines []string
@@ -209,11 +217,15 @@ func main() {
 				ts := localTypeString(a)
 				count[ts]++
 				if names[a.Comment] {
-					// only the first declaration of a name gets an anchor (shadowed duplicates resolve by scope)
+					// every declaration of the name is recorded (a loop variable declared in several loops): #k1,k2,...;
+					// declarations of another type keep the first type's anchor only
 					dup := false
-					for _, l := range lines {
+					for li, l := range lines {
 						if strings.HasPrefix(l, "local "+a.Comment+" ") {
 							dup = true
+							if strings.HasPrefix(l, fmt.Sprintf("local %s %s#", a.Comment, ts)) {
+								lines[li] = fmt.Sprintf("%s,%d", l, count[ts])
+							}
 						}
 					}
 					if !dup {
@@ -379,4 +391,22 @@ func fatalCheck(prop string, format string, a ...interface{}) {
 		fmt.Printf("VIOLATION property=%s replay=%s no-failing-input-found\n", prop, rp)
 	}
 	os.Exit(1)
+}
+
+func identsOf(src string) []string {
+	fs := token.NewFileSet()
+	f := fs.AddFile("", fs.Base(), len(src))
+	var sc scanner.Scanner
+	sc.Init(f, []byte(src), nil, 0)
+	var out []string
+	for {
+		_, tok, lit := sc.Scan()
+		if tok == token.EOF {
+			break
+		}
+		if tok == token.IDENT {
+			out = append(out, lit)
+		}
+	}
+	return out
 }
